@@ -365,6 +365,48 @@ fn gen_valid_history(prop: &str, seed: u64, tier: Tier) -> Scenario {
         sc.profile = "marathon".into();
         return sc;
     }
+    if rng.chance(0.003) {
+        // big FFT blocks: large, nearly coprime rates (plans with large prime factors, blocks beyond 2^17 frames);
+        // a chunk of one or two blocks so that every call transforms
+        let pairs = [(10007usize, 8000usize), (8000, 10007), (177147, 262144), (262144, 177147), (65537, 65536), (100003, 100000), (48000, 44101), (96000, 88211)];
+        let (ri, ro) = if rng.chance(0.6) {
+            *rng.pick(&pairs)
+        } else {
+            let a = rng.usize_in(8000, 300_000);
+            let b = if rng.chance(0.5) { a + rng.usize_in(1, 9) } else { rng.usize_in(8000, 300_000) };
+            (a, b)
+        };
+        fn g(a: usize, b: usize) -> usize {
+            if b == 0 {
+                a
+            } else {
+                g(b, a % b)
+            }
+        }
+        let d = g(ri, ro);
+        let kind = *rng.pick(&[Kind::FftIn, Kind::FftOut, Kind::FftInOut]);
+        let blk = if kind == Kind::FftOut { ro / d } else { ri / d };
+        sc.config.kind = kind;
+        sc.config.rate_in = ri;
+        sc.config.rate_out = ro;
+        sc.config.chunk = blk * rng.usize_in(1, 2);
+        sc.config.sub_chunks = 1;
+        sc.config.channels = rng.usize_in(1, 2);
+        sc.config.mask = None;
+        sc.config.kernel = Kernel::Auto;
+        sc.signal = Signal::Noise { seed: rng.next() };
+        let mut ops = Vec::new();
+        for _ in 0..rng.usize_in(2, 4) {
+            ops.push(Op::process());
+        }
+        if rng.chance(0.4) {
+            ops.push(Op::Reset);
+            ops.push(Op::process());
+        }
+        sc.ops = ops;
+        sc.profile = "big-fft-blocks".into();
+        return sc;
+    }
     let hi = if long { if tier == Tier::Quick { 1500 } else { 4000 } } else if tier == Tier::Quick { 60 } else { 200 };
     let budget = tier_budget(tier) * if long || big { 4.0 } else { 1.0 };
     let n = ops_budget(&sc.config, budget, 8, hi, &mut rng);
